@@ -62,7 +62,8 @@ def gen(rng, tier, index):
         elif roll < 0.46:
             ops.append(["msg", f"{nid};255;4;0;{rng.choice([0, 2])};{'0100010000000000' + '0000' if rng.random() < 0.5 else '010001000000'}", 0])
         elif roll < 0.75:
-            kind = rng.choice(["other_prefix", "fewer", "more_before", "more_after", "out_prefix", "prefix_as_suffix", "no_prefix", "empty_levels", "short_raw"])
+            kind = rng.choice(["other_prefix", "fewer", "more_before", "more_after", "out_prefix", "prefix_as_suffix", "no_prefix", "empty_levels", "short_raw",
+                               "few1", "few2", "few3", "word"])
             ops.append(["foreign", kind, f"{nid};{cid};1;0;{rng.choice([0, 2])};1", rng.choice([0, 1])])
         elif roll < 0.88:
             ops.append(["set", nid, cid, rng.choice([0, 2, 24, 24]), rng.choice(["1", "0", "x y", "22", "28/09/2026", "a/b", "/", "http://x/y?z=1", "", "  12:30", "\tindented", " /",
@@ -147,6 +148,11 @@ def _foreign(kind, in_prefix, out_prefix, line):
         return f"{other}/{levels}"
     if kind == "fewer":
         return in_prefix + "/" + "/".join(parts[:4])
+    if kind in ("few1", "few2", "few3"):
+        # one to three levels behind the prefix (a status topic, a truncated one)
+        return in_prefix + "/" + "/".join(parts[:int(kind[3])])
+    if kind == "word":
+        return in_prefix + "/status"
     if kind == "more_before":
         return in_prefix + "/9/" + levels
     if kind == "more_after":
